@@ -28,7 +28,9 @@ DefaultCases == {[verb |-> "POST", kind |-> "string", pcls |-> "ord", qcls |-> "
 Base(c) == [c EXCEPT !.pcls = "ord", !.qcls = "ord", !.bshape = "string", !.bcls = "ord", !.ctype = "json"]
 Near(c) == Cardinality({d \in {"pcls", "qcls", "bshape", "bcls", "ctype"} : c[d] # Base(c)[d]}) <= 1
            \/ (c.ctype # "json" /\ c.bshape # "string" /\ c.pcls = "ord" /\ c.qcls = "ord" /\ c.bcls = "ord")
-Family == {c \in Cases : Near(c) /\ (~BodyVerb(c.verb) => (c.bshape = "string" /\ c.bcls = "ord" /\ c.ctype = "json"))}
+\* (verbs without a body have no body dimensions, but the content type the client is configured with
+\* still decides how the response travels)
+Family == {c \in Cases : Near(c) /\ (~BodyVerb(c.verb) => (c.bshape = "string" /\ c.bcls = "ord"))}
           \cup {c \in DefaultCases : c.bcls = "ord" \/ c.ctype = "json"}
 
 \* rep: a repeated query parameter, oq: a proto3-optional one (presence counts)
